@@ -299,7 +299,19 @@ def run(ctx):
                         if k == p or k.startswith(p + "["):
                             return True
                         return k.startswith(p + ".") and "(" not in k
+                    # repr(x) / str(x) of a display of numbers and sequences of numbers is as good as x itself
+                    kr_ = key_r
+                    while isinstance(kr_, ast.Call) and txt(kr_.func) in ("repr", "str", "tuple") and len(kr_.args) == 1 and not kr_.keywords:
+                        kr_ = kr_.args[0]
+                    if kr_ is not key_r and not isinstance(kr_, ast.JoinedStr):
+                        key_direct |= {txt(e) for e in (kr_.elts if isinstance(kr_, (ast.Tuple, ast.List)) else [kr_])}
                     weak = [p for p in (deps & params) if p in key_names and not any(pins(k, p) for k in key_direct)]
+                    # a summary known to forget content (size, count, name, extreme, sum) is a wrong key; any other derived form
+                    # (a structural tuple, a serialisation) may or may not determine the argument: not decidable here
+                    LOSSY = ("number_of_nodes", "number_of_edges", "order", "size", "len", "name", "sum", "max", "min", "degree", "degree_histogram", "density", "__len__")
+                    weak_unknown = [p for p in weak if not any((isinstance(x, ast.Call) and (txt(x.func).split(".")[-1] in LOSSY)) or (isinstance(x, ast.Attribute) and x.attr in LOSSY)
+                                                               for x in ast.walk(key_r) if p in astx.names_in(x))]
+
                     a_ = f.node.args
                     ann = {x.arg: (txt(x.annotation) if x.annotation is not None else "") for x in a_.posonlyargs + a_.args}
                     mutable_keys = [] if isinstance(key_r, ast.JoinedStr) else [k for k in key_direct if k in params and (any(h in ann.get(k, "").lower() for h in ("graph", "list", "dict", "set"))
@@ -327,6 +339,10 @@ def run(ctx):
                         o.violated(f, n, f"S2: memo table `{D}` is keyed through the digest `{dg}` of {sorted(deps & params)}: a digest is not injective (e.g. the Weisfeiler-Lehman hash cannot "
                                          "tell K3,3 from the triangular prism), so the entry computed for one input is returned for a different one - the result depends on call history",
                                    sure=True)
+                        continue
+                    if weak and weak_unknown and not missing:
+                        found = True
+                        o.undecided(f"S2: memo table `{D}` is keyed on {weak_unknown} through the derived form `{txt(key_r)[:70]}`; whether that determines the argument is not decidable here", f, n)
                         continue
                     if missing or weak:
                         found = True
@@ -423,14 +439,123 @@ def run(ctx):
                                                 found = True
                                                 o.violated(caller, effs[0].node, f"S4: `{ci.name}.{m.name}` now returns its cached `self.{a}` by reference and `{caller.qualname}` modifies the returned "
                                                                                   f"object in place ({effs[0].kind}): the cache is corrupted, later calls get the modified value", sure=True)
+                    # S6: lazily filled derived cache:  if self.a is None: self.a = f(self.b)  - every other method that writes
+                    # self.b (in this class, its bases and its subclasses) has to reset self.a, else readers keep the old table
+                    par_cache = {}
+                    for (m, n) in sites:
+                        if isinstance(n.value, ast.Constant) and n.value.value is None:
+                            continue
+                        pr = par_cache.setdefault(m.qualname, astx.Parents(m.node))
+                        guard = next((anc for anc in pr.ancestors(n) if isinstance(anc, ast.If) and any(
+                            isinstance(c_, ast.Compare) and astx.self_attr(c_.left) == a and len(c_.ops) == 1 and isinstance(c_.ops[0], ast.Is)
+                            and isinstance(c_.comparators[0], ast.Constant) and c_.comparators[0].value is None for c_ in ast.walk(anc.test))), None)
+                        if guard is None:
+                            continue
+                        # `self.a = None` unconditionally before the guard, in the same function: the table is rebuilt on every
+                        # call, it is a per-call temporary, not a cache
+                        reset_first = False
+                        crossed = []
+                        cur_ = guard
+                        while cur_ is not None and cur_ is not m.node and not reset_first:
+                            blk_ = pr.block_of(cur_)
+                            if blk_ is None:
+                                break
+                            for st_ in blk_[:[id(x) for x in blk_].index(id(cur_))]:
+                                if isinstance(st_, ast.Assign) and any(astx.self_attr(t_) == a for t_ in st_.targets) and isinstance(st_.value, ast.Constant) and st_.value.value is None:
+                                    reset_first = True
+                            cur_ = pr.parent(cur_)
+                            while cur_ is not None and not isinstance(cur_, ast.stmt):
+                                cur_ = pr.parent(cur_)
+                            if isinstance(cur_, (ast.For, ast.While)):
+                                crossed.append(cur_)       # a reset outside the loop does not reset each iteration ...
+                        if reset_first:
+                            # ... which only matters when the loop itself can change what the table is computed from
+                            body_calls = {x.func.attr for l_ in crossed for x in ast.walk(l_) if isinstance(x, ast.Call) and isinstance(x.func, ast.Attribute)
+                                          and isinstance(x.func.value, ast.Name) and x.func.value.id == "self"}
+                            body_writes = any(isinstance(x, ast.Attribute) and isinstance(x.ctx, ast.Store) and isinstance(x.value, ast.Name) and x.value.id == "self" and x.attr != a
+                                              for l_ in crossed for x in ast.walk(l_))
+                            writer_names = {w.name for c2 in [ci] + prog.subclasses(ci) + list(prog.mro(ci)) for w in c2.methods.values()
+                                            if any(isinstance(x, ast.Attribute) and isinstance(x.ctx, ast.Store) and isinstance(x.value, ast.Name) and x.value.id == "self" and x.attr != a
+                                                   for x in ast.walk(w.node))}
+                            if not crossed or (not body_writes and not (body_calls & writer_names)):
+                                continue
+                        deps = {x.attr for st_ in guard.body for x in ast.walk(st_) if isinstance(x, ast.Attribute) and isinstance(x.value, ast.Name) and x.value.id == "self"
+                                and isinstance(x.ctx, ast.Load) and x.attr != a}
+                        deps = {b for b in deps if b in known_attrs or b in _pinned_assigned(ci.name)}
+                        fam = []
+                        for c2 in [ci] + prog.subclasses(ci) + [c3 for c3 in prog.mro(ci) if c3 is not ci]:
+                            if c2 not in fam:
+                                fam.append(c2)
+
+                        def _resets(w, depth=0):
+                            for x in astx.walk_fn(w.node):
+                                if isinstance(x, (ast.Assign, ast.AugAssign, ast.Delete)):
+                                    for t_ in (x.targets if isinstance(x, (ast.Assign, ast.Delete)) else [x.target]):
+                                        if astx.self_attr(t_) == a:
+                                            return True
+                                if depth < 2 and isinstance(x, ast.Call) and isinstance(x.func, ast.Attribute) and isinstance(x.func.value, ast.Name) and x.func.value.id == "self" \
+                                        and w.cls is not None and prog.method(w.cls, x.func.attr) is not None and prog.method(w.cls, x.func.attr) is not w \
+                                        and _resets(prog.method(w.cls, x.func.attr), depth + 1):
+                                    return True
+                            return False
+                        for b in sorted(deps):
+                            for c2 in fam:
+                                for w in c2.methods.values():
+                                    if w is m or w.name == "__init__":
+                                        continue
+                                    writes = [x for x in astx.walk_fn(w.node) if
+                                              (isinstance(x, (ast.Assign, ast.AugAssign)) and any(astx.self_attr(t_) == b or (isinstance(t_, ast.Subscript) and astx.self_attr(t_.value) == b)
+                                                                                                   for t_ in (x.targets if isinstance(x, ast.Assign) else [x.target])))
+                                              or (isinstance(x, ast.Call) and isinstance(x.func, ast.Attribute) and x.func.attr in astx.MUTATOR_METHODS and astx.self_attr(x.func.value) == b)]
+                                    if writes and not _resets(w):
+                                        found = True
+                                        o.violated(w, writes[0], f"S6: `{ci.name}.{m.name}` keeps `self.{a}`, computed once from `self.{b}`; `{w.qualname}` changes `self.{b}` without resetting "
+                                                                 f"`self.{a}`: after it, `{m.qualname}` keeps answering from the old `{b.lstrip('_')}`", shape_free=True)
                     # S5: derived from configuration that can be replaced through a setter, never refreshed
                     for (m, n) in sites:
                         srcs = {x.attr for x in ast.walk(n.value) if isinstance(x, ast.Attribute) and isinstance(x.value, ast.Name) and x.value.id == "self" and x.attr != a}
                         # ... and through the locals the value is computed from (a spliced helper leaves `self.a = tmp`)
                         try:
                             msc = Scope(m.node)
-                            dep_names = set(rules.names_closure(msc, n.value)) | astx.names_in(n.value)
+                            # the definitions that REACH this store: preceding statements of the enclosing blocks, nearest
+                            # first; an unconditional definition hides everything before it (a later or conditional
+                            # re-definition of the same local does not flow into the value stored here)
+                            reach = []
+                            seen_names = set()
+                            work = list(astx.names_in(n.value))
+                            mpar = msc.parents
+                            while work:
+                                nm_ = work.pop()
+                                if nm_ in seen_names:
+                                    continue
+                                seen_names.add(nm_)
+                                cur_ = mpar.stmt_of(n)
+                                done_ = False
+                                while cur_ is not None and not done_:
+                                    blk_ = mpar.block_of(cur_)
+                                    if blk_ is None:
+                                        break
+                                    for st_ in blk_[:[id(x) for x in blk_].index(id(cur_))][::-1]:
+                                        tnames_ = {y.id for y in ast.walk(st_) if isinstance(y, ast.Name) and isinstance(y.ctx, ast.Store)}
+                                        # ... and containers filled in place: x[k] = .., x.append(..)
+                                        filled_ = {astx.root_name(y.value) for y in ast.walk(st_) if isinstance(y, (ast.Subscript, ast.Attribute)) and isinstance(y.ctx, ast.Store)} | \
+                                            {astx.root_name(y.func.value) for y in ast.walk(st_) if isinstance(y, ast.Call) and isinstance(y.func, ast.Attribute) and y.func.attr in astx.MUTATOR_METHODS}
+                                        if nm_ in tnames_ or nm_ in filled_:
+                                            reach.append(st_)
+                                            work.extend(y.id for y in ast.walk(st_) if isinstance(y, ast.Name) and isinstance(y.ctx, ast.Load))
+                                            if isinstance(st_, (ast.Assign, ast.AnnAssign)) and nm_ in tnames_ and any(isinstance(t_, ast.Name) and t_.id == nm_ for t_ in (st_.targets if isinstance(st_, ast.Assign) else [st_.target])):
+                                                done_ = True       # unconditional at this level
+                                                break
+                                    cur_ = mpar.parent(cur_) if not done_ else None
+                                    while cur_ is not None and not isinstance(cur_, ast.stmt):
+                                        cur_ = mpar.parent(cur_)
+                                    if cur_ is m.node:
+                                        break
+                            reach_ids = {id(x) for st_ in reach for x in ast.walk(st_)}
+                            dep_names = seen_names
                             for x in astx.walk_fn(m.node):
+                                if id(x) not in reach_ids:
+                                    continue
                                 tgt_names = set()
                                 src_expr = None
                                 if isinstance(x, (ast.Assign, ast.AnnAssign)) and x.value is not None:
